@@ -60,13 +60,18 @@ class Shape:
         self.sid, self.name, self.fields, self.vis, self.derives, self.soa_derives, self.soa_attrs = sid, name, fields, vis, derives, soa_derives, soa_attrs
         self.nested, self.drop, self.cls, self.note = nested, drop, cls, note
         self.extra = ""     # extra items of the module (uses of what the declaration asked for)
+        self.no_import = False   # derive through the path `soa_derive::StructOfArray`, nothing imported (the `#[macro_use] extern crate` style)
         # fields: [(vis, name, type, is_nested)]
+
+    derive_path = "StructOfArray"
 
     def decl(self):
         out = []
-        if self.nested: out.append(self.nested.decl())
+        if self.nested:
+            self.nested.derive_path = self.derive_path
+            out.append(self.nested.decl())
         out.append("/// doc\n#[allow(missing_copy_implementations)]")
-        der = ["StructOfArray"] + self.derives
+        der = [self.derive_path] + self.derives
         out.append(f"#[derive({', '.join(der)})]")
         if self.soa_derives: out.append(f"#[soa_derive({', '.join(self.soa_derives)})]")
         for k, a in self.soa_attrs: out.append(f"#[soa_attr({k}, {a})]")
@@ -81,7 +86,9 @@ class Shape:
     def module(self):
         """the declaration in its own module, with a use of the generated vector so that nothing is dead code"""
         vis = "pub" if self.vis == "pub" else "pub(crate)"
-        return (f"/// module\npub mod m{self.sid} {{\n    #![allow(dead_code)]\n    use soa_derive::StructOfArray;\n    #[allow(unused_imports)] use super::{{Opaque, Zst}};\n"
+        if self.no_import: self.derive_path = "soa_derive::StructOfArray"
+        imp = "" if self.no_import else "    use soa_derive::StructOfArray;\n"
+        return (f"/// module\npub mod m{self.sid} {{\n    #![allow(dead_code)]\n{imp}    #[allow(unused_imports)] use super::{{Opaque, Zst}};\n"
                 + "\n".join("    " + l for l in self.decl().split("\n"))
                 + f"\n    /// touch the generated types\n    {vis} fn touch() -> usize {{ let v = {self.name}Vec::new(); v.len() + v.as_slice().len() }}\n"
                 + "\n".join("    " + l for l in self.extra.split("\n") if l) + "\n}\n")
@@ -183,6 +190,17 @@ def corner_corpus(start_id):
     inner1 = Shape(sid, f"CMid{sid}", [("pub", "i", inner2.name, True), ("pub", "y", "String", False)], "pub", ["Debug", "Clone", "PartialEq"], ["Debug", "Clone", "PartialEq"], [], inner2, cls="corner-inner")
     add([("pub", "m", inner1.name, True), ("pub", "z", "f64", False), ("pub", "m2", inner2.name, True)], derives=("Debug", "Clone", "PartialEq"), soa=("Debug", "Clone", "PartialEq"), nested=inner1,
         note="two levels of nesting, the same inner type twice")
+    # nothing imported at the derive site (the `#[macro_use] extern crate soa_derive;` style), with and without nesting
+    sh = add([("pub", "a", "u8", False), ("pub", "b", "String", False)], derives=("Debug", "Clone"), soa=("Debug", "Clone"), note="no import at the derive site")
+    sh.no_import = True
+    inner3 = Shape(sid, f"CInner{sid}", [("pub", "x", "u8", False), ("pub", "y", "String", False)], "pub", ["Debug", "Clone"], ["Debug", "Clone"], [], cls="corner-inner")
+    sh = add([("pub", "a", "u32", False), ("pub", "n", inner3.name, True)], derives=("Debug", "Clone"), soa=("Debug", "Clone"), nested=inner3, note="no import at the derive site, nested field")
+    sh.no_import = True
+    # the Clone API of the SoA types asks Clone of the field values, not of the structs themselves
+    inner4 = Shape(sid, f"CInner{sid}", [("pub", "x", "u8", False), ("pub", "y", "String", False)], "pub", ["Debug"], ["Debug", "Clone"], [], cls="corner-inner")
+    sh = add([("pub", "a", "u32", False), ("pub", "n", inner4.name, True)], derives=("Debug",), soa=("Debug", "Clone"), nested=inner4, note="soa_derive(Clone) on structs that are not Clone themselves, nested field")
+    sh.extra = f"/// the cloning API is there\npub fn uses(v: &mut {sh.name}Vec, e: {sh.name}) -> usize {{ v.resize(3, e); let w = v.as_slice().to_vec(); w.len() }}"
+    add([("pub", "a", "u32", False), ("pub", "s", "String", False)], derives=("Debug",), soa=("Debug", "Clone"), note="soa_derive(Clone) on a struct that is not Clone itself")
     add([("pub", "a", "u8", False)], soa=("Debug", "Default"), note="Default request is ignored")
     add([("pub", "a", "u8", False)], derives=("Debug", "PartialEq", "Eq", "PartialOrd", "Ord", "Hash", "Clone"), soa=("Debug", "PartialEq", "Eq", "PartialOrd", "Ord", "Hash", "Clone"), note="all eight traits")
     add([("pub", "a", "u8", False)], attrs=[(k, "allow(dead_code)") for k in ("Vec", "Slice", "SliceMut", "Ref", "RefMut", "Ptr", "PtrMut")], note="soa_attr on every kind")
